@@ -142,6 +142,15 @@ func genCase(t *rapid.T) Case {
 		b.Init = rapid.IntRange(0, 2).Draw(t, "init") == 0
 		c.Bufs = append(c.Bufs, b)
 	}
+	// rarely, on the DMA path: a large scratch buffer into whose every 64-byte
+	// line a first kernel stores, so that the cache flush of that GPU takes
+	// longer than the driver's fixed copy latency and than a small copy on
+	// another GPU
+	scratch := -1
+	if dma && rapid.IntRange(0, 5).Draw(t, "scratch") == 0 {
+		scratch = len(c.Bufs)
+		c.Bufs = append(c.Bufs, Buf{Size: pageSize * rapid.IntRange(80, 128).Draw(t, "scratch-pages"), Dev: rapid.IntRange(1, n).Draw(t, "scratch-gpu")})
+	}
 	// kernels: in timing mode with magic copy every kernel hits finding C11-1
 	// (stores stay in the caches the direct path bypasses), so half of those
 	// cases are pure copy histories
@@ -151,7 +160,9 @@ func genCase(t *rapid.T) Case {
 	}
 	var kbufs []int
 	for i, b := range c.Bufs {
-		if b.Size >= 4 {
+		// a kernel touching unified (CPU-resident) memory on a timing platform starts
+		// a page migration: that machinery is property C19's subject, not a copy
+		if b.Size >= 4 && !(b.Dev == -1 && c.Plat.Timing) {
 			kbufs = append(kbufs, i)
 		}
 	}
@@ -162,9 +173,29 @@ func genCase(t *rapid.T) Case {
 	for e := 0; e < epochs; e++ {
 		// one queue per epoch, or every buffer bound to one queue for this epoch
 		// (operations on different queues then touch disjoint buffers)
-		multi := nq > 1 && rapid.IntRange(0, 2).Draw(t, "several-queues") == 0
+		multi := nq > 1 && rapid.Bool().Draw(t, "several-queues")
 		q0 := rapid.IntRange(0, nq-1).Draw(t, "epoch-queue")
 		nops := rapid.IntRange(1, 5).Draw(t, "ops")
+		if e == 0 && scratch >= 0 {
+			s := Step{Kind: "kernel", Q: q0, Buf: scratch, Count: c.Bufs[scratch].Size / lineSize, Shift: 4,
+				Seed: rapid.Uint32().Draw(t, "k"), WG: 256}
+			if multi {
+				s.Q = (q0 + s.Buf) % nq
+			}
+			c.Steps = append(c.Steps, s)
+			// touch the part of it whose lines are written back last while that
+			// flush is the long one
+			r := Step{Kind: rapid.SampledFrom([]string{"d2h", "d2h", "d2h", "h2d"}).Draw(t, "scratch-op"), Q: s.Q, Buf: scratch,
+				Type: rapid.SampledFrom([]string{"u8", "u32", "i64"}).Draw(t, "type")}
+			size, es := c.Bufs[scratch].Size, elemSize[r.Type]
+			back := rapid.IntRange(es, size/4).Draw(t, "scratch-back")
+			r.Off = size - back
+			r.Count = rapid.IntRange(1, min(back, 2*pageSize)/es).Draw(t, "scratch-count")
+			if r.Kind == "h2d" {
+				r.Seed = rapid.Uint32().Draw(t, "seed")
+			}
+			c.Steps = append(c.Steps, r)
+		}
 		for k := 0; k < nops; k++ {
 			var s Step
 			kinds := []string{"h2d", "h2d", "h2d", "d2h", "d2h", "d2h"}
@@ -183,7 +214,11 @@ func genCase(t *rapid.T) Case {
 			}
 			size := c.Bufs[s.Buf].Size
 			if s.Kind == "kernel" {
-				s.Off, s.Count = genRange(t, size, 4, 4, 1280)
+				s.Shift = rapid.SampledFrom([]int{0, 0, 0, 1, 4}).Draw(t, "shift")
+				if size < 4<<s.Shift {
+					s.Shift = 0
+				}
+				s.Off, s.Count = genRange(t, size, 4<<s.Shift, 4, 1280)
 				s.Seed = rapid.Uint32().Draw(t, "k")
 				s.Wait = rapid.Bool().Draw(t, "wait")
 				s.WG = rapid.SampledFrom([]int{64, 64, 128, 256}).Draw(t, "wg")
